@@ -420,6 +420,10 @@ pub struct Alphabet {
     pub setters: bool,
     /// write handles kept open across other calls (OpenWrite / FlushWrite / CloseWrite)
     pub sessions: bool,
+    /// a refused call that leaves the observable state unchanged still starts a state of its own
+    /// (at most one per history): whatever the refused call left behind inside the filesystem is
+    /// then met by every later call
+    pub residue: bool,
 }
 
 impl Alphabet {
